@@ -835,5 +835,11 @@ func ImplObs(res *Result) string {
 	if res.Err == nil {
 		cr = ints(present)
 	}
-	return fmt.Sprintf("ACC ret=%s tag=%s dst=%s cr=%s ms=%d md=%d", ret, tag, ints(present), cr, res.SrcMax, res.DstMax)
+	// the in-flight maxima are compared on successful runs only: after a failure the model drops the
+	// dead task's operations at once, the real ones are still returning (the oracle checks the bound on every run)
+	gauges := "ms=- md=-"
+	if res.Err == nil {
+		gauges = fmt.Sprintf("ms=%d md=%d", res.SrcMax, res.DstMax)
+	}
+	return fmt.Sprintf("ACC ret=%s tag=%s dst=%s cr=%s %s", ret, tag, ints(present), cr, gauges)
 }
